@@ -80,6 +80,29 @@ def check(kinds, edges, order, attacker_on, stats):
         return v
     if len(want) < len(kinds):
         stats['nontrivial'] = stats.get('nontrivial', 0) + 1
+    # second round on the SAME graph object: relabel a surviving step by hand (labels are public attributes,
+    # no full recalculation) and prune again - nothing remembered from the first pruning may get in the way
+    victims = [i for i in want if kinds[i][0] in ('or', 'and')][:1]
+    if victims:
+        v0 = victims[0]
+        nodes[v0].is_necessary = False
+        try:
+            prune_unviable_and_unnecessary_nodes(g)
+        except Exception as e:  # noqa: BLE001
+            return common.Violation(f'second_prune_raised:{type(e).__name__}', f'second prune raised {e}', case=case)
+        stats['prunes'] += 1
+        got2 = sorted(i for i, n in enumerate(nodes) if any(m is n for m in g.nodes))
+        want2 = [i for i in want if i != v0]
+        if got2 != want2:
+            return common.Violation('second_prune_after_relabel_wrong',
+                                    'after relabelling a surviving step and pruning again the node set is not exactly the non-prunable nodes',
+                                    case=dict(case, relabelled=v0), expected=want2, observed=got2)
+        try:
+            refgraph.invariants(g, ids, names, [])
+        except common.Violation as v:
+            v.key = 'after_second_prune:' + v.key
+            v.case = case
+            return v
     return None
 
 
